@@ -563,7 +563,12 @@ func newParamGroupedSlice(f reflect.StructField, c containerStore) (paramGrouped
 // any decorated value groups provided in further scopes.
 func (pt paramGroupedSlice) getDecoratedValues(c containerStore) (reflect.Value, bool) {
 	for _, c := range c.storesToRoot() {
-		if items, ok := c.getDecoratedValueGroup(pt.Group, pt.Type); ok {
+		if items, ok := c.getDecoratedValueGroup(pt.Group, pt.Type.Elem()); ok {
+			// The decorator may have returned the group as a different
+			// slice type over the same element type.
+			if items.Type() != pt.Type {
+				items = items.Convert(pt.Type)
+			}
 			return items, true
 		}
 	}
